@@ -57,7 +57,7 @@ def check(d):
         for pid in CLAIMED:
             rc, out = sh("%s -m sa.check %s --no-write" % (PY, pid), cwd="/verif")
             for line in out.splitlines():
-                if ": rule " in line and " cannot decide" not in line:
+                if ": rule " in line and " cannot decide" not in line and not line.startswith("ANALYSIS-ERROR"):
                     fired.setdefault(pid, set()).add(line.split(": rule ")[1].split()[0])
                 if line.startswith("ANALYSIS-ERROR"):
                     fired.setdefault(pid, set()).add("ANALYSIS-ERROR")
